@@ -18,6 +18,10 @@ instance (s : Sid) : Decidable s.WF := by unfold Sid.WF; infer_instance
 
 /-! ### the string grammar `^S-([0-9])-([0-9]+)(?:-[0-9]+){1,15}\Z` followed by `int()` -/
 
+/-- the regular expression as written in `sid_to_bytes` (`\\Z`: no trailing newline; `[0-9]`: ASCII digits only). `grammarOk`
+    below is its meaning on the `-`-split form; the translator re-checks on every run that the source still says exactly this. -/
+def sidPatternSource : String := "^S-([0-9])-([0-9]+)(?:-[0-9]+){1,15}\\Z"
+
 def isDigit (c : Char) : Bool := '0' ≤ c && c ≤ '9'
 
 def decVal (cs : List Char) : Nat := cs.foldl (fun acc c => acc * 10 + (c.toNat - 48)) 0
